@@ -60,6 +60,20 @@ def child(req):
         m = b.create_data_array("mat%d" % i, "t", data=np.zeros((rnd.randint(1, 30), 7), dtype=np.int32), compression=comp)
         for _ in range(rnd.randint(0, 3)):
             m.append(np.ones((rnd.randint(1, 40), 7), dtype=np.int32) * rnd.randint(1, 9), axis=0)
+    if req["final"] == "flush" and rnd.random() < 0.6:
+        # a flush, then only small writes that need no new space in the file, then the flush under test
+        for a in b.data_arrays:
+            a.unit = "mV"
+        b.definition = "d0"
+        f.flush()
+        grow = rnd.random() < 0.3
+        for a in b.data_arrays:
+            if a.name.startswith("grow") and len(a) > 10:
+                a[1:4] = np.array([7.5, 8.5, 9.5])
+                if grow:
+                    a.append(np.array([1.0, 2.0, 3.0, 4.0, 5.0]))
+            a.unit = "uV"
+        b.definition = "d1"
     st = state(f)
     st["ops"] = ops
     st["trace"] = r.trace
